@@ -465,7 +465,11 @@ func VerifC32_fetchVisibility() { verifC32Fetch(false) }
 func VerifC32_fetchAbortedList() { verifC32Fetch(true) }
 
 func verifC32Fetch(abortedPart bool) {
-	n := verifConcretize(verifRange("nbatches", 0, verifC32NFetchBatches()))
+	maxN := verifC32NFetchBatches()
+	if !abortedPart {
+		maxN = 3 // a sealed segment of two batches followed by another segment needs three
+	}
+	n := verifConcretize(verifRange("nbatches", 0, maxN))
 	st := verifC32Batches(n)
 	pd := st.pd
 	// LSO per I32 without materialising the table (fetch never reads it)
